@@ -271,12 +271,12 @@ PROPS = {
                 "converters against the implementation's result. BYTETAB: the 256 placeholder characters observed through a ByteLevel source. "
                 "BYTEPIECE: all 256 <0xNN> pieces (upper and lower case) and malformed ones through a SentencePiece source. CONVHF: the Lean "
                 "model of the Tokenizers converter's vocabulary path (HFA / HFV / HFM lines carry the parsed source) against the "
-                "implementation's vocabulary, scores and specials. IMPLEQ detect: "
+                "implementation's vocabulary, scores and specials; CONVSP: the same for the SentencePiece converter (SPT / SPP lines). IMPLEQ detect: "
                 "auto-detection = explicit converter, with the earlier loaders of the chain that accept the data named; detect-native: a "
                 "native file of the result is read back as itself. Non-trivial: all.",
         "trusted_base": CORE_TB + ["the independent parsers in harness/src/c15.rs (they share base64, serde_json and prost with the converters, none of the converters' types or logic)",
                                    "keepsFast (hash-map evaluation of keepsCheck for 100k-entry vocabularies; cross-checked against the proved keepsCheck on every source with at most 2000 tokens)",
-                                   "NOT modelled: the SentencePiece converter, and the Tokenizers converter's translation of normalizers / pre-tokenizers / decoders / post-processors (its vocabulary path is modelled: CONVHF compares model and implementation on every source with at most 3000 tokens); their output is judged per source"],
+                                   "NOT modelled: the translation of normalizers / pre-tokenizers / decoders / post-processors by the SentencePiece and Tokenizers converters (their vocabulary paths are modelled: CONVHF / CONVSP compare model and implementation on every source with at most 3000 tokens; larger sources are judged by KEEPS only)"],
         "assumptions": ["Tekken tokens beyond default_vocab_size and SentencePiece BYTE pieces not of the exact form <0xNN> carry no claim (treated as unused)",
                         "a second SentencePiece UNKNOWN piece, or one that the trainer spec does not name, carries no claim"],
         "explanation": "Lean theorems: the byte-level placeholder table has 256 distinct entries and its inverse undoes it on every byte "
@@ -290,7 +290,9 @@ PROPS = {
                        "iteration order of its hash maps): postSteps_keeps / postSteps_no_invention / postSteps_nodup (undoing "
                        "placeholders and <0xNN>, de-duplication), repairIds_spec / repairIds_fresh / repairIds_above_specials (repair of "
                        "colliding special ids; the first statement of repairIds_fresh was false of the code: defect F24), "
-                       "hf_unigram_order_independent / hf_bpe_order_independent, hf_unigram_scores_aligned (F22). "
+                       "hf_unigram_order_independent / hf_bpe_order_independent, hf_unigram_scores_aligned (F22); for the SentencePiece "
+                       "converter's vocabulary path: sp_keeps_pieces / sp_no_invention / sp_unused_dropped / sp_special_pieces / "
+                       "sp_unigram_scores / sp_vocab_order_independent. "
                        "The SentencePiece and Tokenizers converters are decided per source by keepsCheck on the implementation's output.",
     },
     "C16": {
